@@ -100,6 +100,23 @@ theorem close_unblocks (s : State) (hc : s.topicClosed = true) :
   · intro t ht
     simp [step, hc, ht]
 
+/-- after a close a wait can only return — with the buffered reply or with `closed`: the time-out outcome
+(and with it the unbounded block of `Wait`, which is `WaitTimeout(-1)`) is not a possible step any more. -/
+theorem wait_after_close_returns (s : State) (hc : s.topicClosed = true ∨ s.clientClosed = true) (o : Obj) :
+    step s (.timeout o) = none ∧
+    (∃ s' out, step s (.wait o) = some (s', out) ∧ (out = .err "closed" ∨ ∃ t, out = .tag t)) := by
+  constructor
+  · rcases hc with hc | hc <;> simp [step, hc]
+  · simp only [step]
+    cases hb : (s.objs o).buf with
+    | some t => exact ⟨_, _, rfl, Or.inr ⟨t, rfl⟩⟩
+    | none =>
+      rcases hc with hc | hc <;> simp [hc] <;> exact ⟨s, _, ⟨rfl, rfl⟩, Or.inl rfl⟩
+
+/-- non-vacuity: a request that was never answered, after the whole queue is closed: wait returns `closed`. -/
+example : (run {} [.new 0, .send 0 true, .closeQueue, .wait 0]).map (·.2) =
+    some [.ok, .ok, .ok, .err "closed"] := by decide
+
 /-- `closeTopic` and `closeQueue` do close the topic, from every state. -/
 theorem close_sets_closed (s s' : State) (out : Out) (l : Label) (hl : l = .closeTopic ∨ l = .closeQueue)
     (h : step s l = some (s', out)) : s'.topicClosed = true := by
